@@ -123,7 +123,7 @@ for _k, _f in (('etc', _tz_etc), ('named', _tz_named), ('pytz', _tz_pytz), ('dat
 ZKIND_LIST = sorted(ZKINDS)
 STAMP_TYPES = {'naive13': ('dt', 'ts', 'np', 'iso', 'np_ns'), 'daily': ('dt', 'date', 'ts', 'np', 'date', 'iso'),
                'aware': ('dt', 'ts', 'ts_tz')}
-READ_TYPES = {'naive13': ('dt', 'ts', 'np'), 'daily': ('dt', 'date', 'ts', 'np'), 'aware': ('dt', 'ts', 'ts_tz')}
+READ_TYPES = {'naive13': ('dt', 'ts', 'np', 'np_ns'), 'daily': ('dt', 'date', 'ts', 'np', 'np_ns'), 'aware': ('dt', 'ts', 'ts_tz')}
 
 
 def types_of(table):
@@ -250,6 +250,15 @@ def stored_stamps(store):
     return sorted({instant_of(u) for u in list(store[_updated])})
 
 
+def replay(store, t):
+    """bi_merge(store, older): older = the rows of the real store stamped at instants <= t (a copy of the
+    store as it stood at t), handed back in one call"""
+    from pyg_base import bi_merge
+    from pyg_base._bitemporal import _updated
+    older = store[[instant_of(u) <= t for u in list(store[_updated])]]
+    return bi_merge(store, older)
+
+
 def has_ties(hist):
     """some date is published twice under one stamp (input feature, used to match known findings)"""
     seen = set()
@@ -267,6 +276,10 @@ _TASKS = []           # filled before the pool forks
 
 
 def _apply(store, e, k=0):
+    if e['op'] == 'replay':
+        if store is not None and e['s'] in stored_stamps(store):
+            return replay(store, e['s']), True
+        return store, False                      # the real store holds nothing stamped then
     if e['op'] == 'again':
         if stored_rows(store, e['s']) and all(p in stored_rows(store, e['s']) for p in e['v']):
             return merge(store, _ev_stamp(e, k), e['v']), True
@@ -440,7 +453,7 @@ def _history(args):
     store = None
     events = []
     s = 2
-    feats = {'mode': mode, 'era': era, 'palette': palette, 'written': wr, 'dates': nd, 'rows_gt16': False, 'batch': False, 'again': 0}
+    feats = {'mode': mode, 'era': era, 'palette': palette, 'written': wr, 'dates': nd, 'rows_gt16': False, 'batch': False, 'again': 0, 'replay': 0}
     pending = []
 
     def pick_cell(d):
@@ -520,6 +533,13 @@ def _history(args):
             store = merge(store, _ev_stamp(events[-1]), sub)
             feats['again'] += 1
             reads_now()
+        if rng.random() < 0.2:                         # merge an earlier snapshot of the store into it, in one call
+            have = stored_stamps(store)
+            t = rng.choice(have)
+            store = replay(store, t)
+            events.append({'op': 'replay', 's': t, 'w': t, 'z': 0, 'stamps': have})
+            feats['replay'] += 1
+            reads_now()
     feats['ties'] = has_ties(events)
     return {'id': hid, 'events': events, 'feats': feats}
 
@@ -582,7 +602,8 @@ def c2s(ctx, n, big):
                         'reads_that_raised': sum(1 for h in hs for e in h['events'] if e['op'] == 'read' and e['ok'] == 0),
                         'with_more_than_16_rows': sum(1 for h in hs if h['feats']['rows_gt16']),
                         'with_batch_merge': sum(1 for h in hs if h['feats']['batch']),
-                        're_merges': sum(h['feats']['again'] for h in hs)}
+                        're_merges': sum(h['feats']['again'] for h in hs),
+                        'snapshot_replays': sum(h['feats']['replay'] for h in hs)}
     h = hs[len(hs) // 2]
     ctx.sample({'c2s_history': {'id': h['id'], 'feats': h['feats'],
                                 'events': [{k: (v if k not in ('v', 'res', 'rows') else v[:4] + (['...'] if len(v) > 4 else []))
@@ -628,6 +649,8 @@ def run(ctx):
     s2c(ctx, ctx.generate('MC_Bitemporal', 'MC_Bitemporal_gen2.cfg'), 'gen2')
     # every history of <= 2 publications + 1 re-merge with every stamp and read time in a zone east or west
     s2c(ctx, ctx.generate('MC_Bitemporal', 'MC_Bitemporal_gen5.cfg'), 'gen5-zones')
+    # every history of <= 3 publications with one replay of an earlier snapshot of the store anywhere in it
+    s2c(ctx, ctx.generate('MC_Bitemporal', 'MC_Bitemporal_gen8.cfg'), 'gen8-replay')
     if not q:
         s2c(ctx, ctx.generate('MC_Bitemporal', 'MC_Bitemporal_gen4.cfg'), 'gen4')
         s2c(ctx, ctx.generate('MC_Bitemporal', 'MC_Bitemporal_gen6.cfg'), 'gen6-zones')
